@@ -696,6 +696,14 @@ pub fn supervise(prop: &dyn Prop, cfg: &SupervisorCfg) -> i32 {
         println!("VIOLATION property={} replay={}", id, fname);
     }
 
+    if let Ok(path) = std::env::var("VSIM_DUMP_OBS") {
+        // one line per run: index and observation digest (for the determinism self-test)
+        let mut s = String::new();
+        for (i, o) in &agg.obs {
+            s.push_str(&format!("{} {}\n", i, hex(*o)));
+        }
+        let _ = std::fs::write(path, s);
+    }
     let wall = t0.elapsed().as_secs_f64();
     if cfg.write_evidence {
         write_evidence(prop, cfg, &agg, total, nworkers, main_wall, wall, recheck_runs, recheck_mismatch.len() as u64, &known_hit, unknown.len() as u64);
